@@ -361,7 +361,12 @@ pub fn run_check(chk: &dyn Check, tier: Tier, seed: u64, budget: f64, max_s: f64
     let mut merged = Ctx::new(chk.id(), tier, seed, budget);
     let mut pinfo = Vec::new();
     let mut deadline_hit = false;
+    // Secondary build configurations (coset's `std` feature, the debug-assertions profile) repeat the
+    // workload thinned out: random phases through the budget, enumerated phases through this stride.
+    // Their coverage floors are not judged (the primary run's are).
+    let stride: u64 = std::env::var("VERIF_SECONDARY_STRIDE").ok().and_then(|s| s.parse().ok()).filter(|k| *k >= 1).unwrap_or(1);
     for (pi, ph) in phases.iter().enumerate() {
+        let step = if ph.exhaustive { stride } else { 1 };
         let ran = std::sync::atomic::AtomicU64::new(0);
         let stop = std::sync::atomic::AtomicBool::new(false);
         let results: Vec<Ctx> = std::thread::scope(|s| {
@@ -374,7 +379,7 @@ pub fn run_check(chk: &dyn Check, tier: Tier, seed: u64, budget: f64, max_s: f64
                     .stack_size(64 << 20)
                     .spawn_scoped(s, move || {
                         let mut ctx = Ctx::new(chk.id(), tier, seed, budget);
-                        let mut idx = t as u64;
+                        let mut idx = t as u64 * step + (seed % step);
                         while idx < ph.cases {
                             if !ph.exhaustive && (idx / nthreads as u64) % 64 == 0 {
                                 if t0.elapsed().as_secs_f64() > max_s {
@@ -402,7 +407,7 @@ pub fn run_check(chk: &dyn Check, tier: Tier, seed: u64, budget: f64, max_s: f64
                                 }
                             }
                             ran.fetch_add(1, std::sync::atomic::Ordering::Relaxed);
-                            idx += nthreads as u64;
+                            idx += nthreads as u64 * step;
                         }
                         ctx
                     })
@@ -420,7 +425,8 @@ pub fn run_check(chk: &dyn Check, tier: Tier, seed: u64, budget: f64, max_s: f64
         }
         pinfo.push((ph.name.to_string(), ph.cases, r, ph.exhaustive && r == ph.cases));
     }
-    let inconclusive = match chk.finish(&mut merged) {
+    let floors = if stride > 1 { Ok(()) } else { chk.finish(&mut merged) };
+    let inconclusive = match floors {
         Ok(()) => {
             if !merged.harness_errors.is_empty() {
                 Some(format!("{} harness errors, first: {}", merged.harness_errors.len(), merged.harness_errors[0]))
